@@ -20,6 +20,7 @@ _errors = []
 _ctx = {"stack": []}
 _built = {}          # id(CascadeInfo) -> (CascadeInfo, info dict): how the builder accounted for the cascade
 _meta = {}
+_pending_build = []
 
 
 def _i(x):
@@ -141,6 +142,9 @@ def install():
 
     def build_cascades(self, ref_schedule, fallback_schedule, guiding_mem_limit):
         rec = before_build(self, ref_schedule, fallback_schedule, guiding_mem_limit)
+        del _pending_build[:]
+        if rec is not None:
+            _pending_build.append(rec)
         top = _ctx["stack"][-1] if _ctx["stack"] else None
         if top is not None and top["kind"] == "minsched" and rec is not None:
             guarded(_min_nl_record)(top, self, ref_schedule)
@@ -727,6 +731,176 @@ def stub_fast(rng, n):
             sc.live_range.extract_live_ranges_from_schedule = orig_extract
         out = {"idx": k, "profile": "stub_fast", "seed": -1, "opts": [], "desc": f"generated live ranges T={T} n={nlr} limit={limit}",
                "sched": extra(None)}
+        outs.append(out)
+    return outs
+
+
+def stub_builder(rng, n):
+    """n generated operator chains through the REAL CascadeBuilder.build_cascades (SchedulerOperation objects made with
+    object.__new__ and filled with the attributes the builder, `_is_cascadable`, `ofm_can_reuse_ifm` and `ifm_box_overread` read;
+    real Tensor / Kernel / Shape4D objects, real size methods).  Reaches what compiled networks rarely do: branches and gaps in
+    the chain, dependants outside the builder's operations, full-feature-map flags in the middle, non-cascadable block types,
+    binary elementwise operators, read offsets, weight buffers in the reference cost, non-zero / negative non-local usage, both
+    memory modes with limits around the sizes involved, reference costs without an entry."""
+    from ethosu.vela import cascade_builder as cb, scheduler as sc
+    from ethosu.vela.data_type import DataType
+    from ethosu.vela.operation import Kernel, Op, Padding
+    from ethosu.vela.shape4d import Shape4D
+    from ethosu.vela.tensor import MemArea, MemType, Tensor, TensorFormat, TensorPurpose
+
+    install()
+    outs = []
+    for k in range(n):
+        _reset()
+        nops = rng.randint(2, 7)
+        h, w = rng.choice([8, 12, 16, 33, 40, 64]), rng.choice([4, 8, 16, 32])
+        dt = rng.choice([DataType.int8, DataType.int8, DataType.int16])
+        arch = types.SimpleNamespace(arena_cache_size=rng.choice([2048, 16384, 65536, 1 << 20]))
+
+        def tensor(name, shape, fmt):
+            t = Tensor(list(shape), dt, name)
+            t.format = fmt
+            t.purpose, t.mem_area, t.mem_type = TensorPurpose.FeatureMap, MemArea.Sram, MemType.Scratch
+            t.consumer_list = [None]
+            t.ops = [types.SimpleNamespace(type=Op.Conv2DBias)]
+            return t
+
+        c_prev = rng.choice([4, 8, 16])
+        cur_shape = [1, h, w, c_prev]
+        cur_t = tensor(f"x{k}_0", cur_shape, TensorFormat.NHWC)
+        ops = []
+        gap = [0]
+        for i in range(nops):
+            kind = rng.choice([Op.Conv2DBias] * 5 + [Op.AvgPool, Op.Add, Op.Add, Op.FullyConnected, Op.DepthwiseConv2DBias])
+            kh = rng.choice([1, 3, 3, 5]) if kind != Op.Add else 1
+            sy = rng.choice([1, 1, 1, 2]) if kind != Op.Add else 1
+            co = rng.choice([4, 8, 16, 24, 32]) if kind in (Op.Conv2DBias, Op.FullyConnected) else cur_shape[3]
+            oh = max(1, cur_shape[1] // sy)
+            out_shape = [1, oh, cur_shape[2], co]
+            fmt = rng.choice([TensorFormat.NHCWB16, TensorFormat.NHCWB16, TensorFormat.NHWC])
+            out_t = tensor(f"x{k}_{i + 1}", out_shape, fmt)
+            ifm_shape = list(cur_shape)
+            if rng.random() < 0.03:
+                ifm_shape[1] += 1          # producer OFM shape != consumer IFM shape: the chain breaks here
+            so = object.__new__(sc.SchedulerOperation)
+            so.arch = arch
+            if rng.random() < 0.04:
+                gap[0] += 1                                        # a gap in the indices: "requires reordering"
+            so.index = i + gap[0]
+            so.name = f"op{k}_{i}"
+            so.op_type = kind
+            so.kernel = Kernel(kh, kh, sy, sy, 1, rng.choice([1, 1, 2]) if kh > 1 else 1)
+            so.ifm = sc.SchedulerTensor(Shape4D(ifm_shape), dt, MemArea.Sram, cur_t.format)
+            so.ofm = sc.SchedulerTensor(Shape4D(out_shape), dt, MemArea.Sram, fmt)
+            so.ifm2 = None
+            ifm2_t = None
+            if kind == Op.Add:
+                ifm2_t = tensor(f"c{k}_{i}", cur_shape if rng.random() < 0.6 else [1, 1, 1, cur_shape[3]], TensorFormat.NHWC)
+                if rng.random() < 0.7:
+                    ifm2_t.ops = [types.SimpleNamespace(type=Op.Const)]
+                so.ifm2 = sc.SchedulerTensor(Shape4D(ifm2_t.shape), dt, MemArea.Sram, TensorFormat.NHWC)
+            so.requires_full_ifm = (i == 0 and rng.random() < 0.8) or rng.random() < 0.04
+            so.requires_full_ifm2 = False
+            so.requires_full_ofm = (i == nops - 1 and rng.random() < 0.8) or rng.random() < 0.04
+            attrs = {}
+            if kh > 1 and rng.random() < 0.8:
+                top = (kh - 1) // 2
+                attrs["skirt"] = (top, 0, kh - 1 - top + rng.choice([0, 0, 1, 2]), 0)
+            if rng.random() < 0.04:
+                attrs["padding"] = Padding.TILE
+            so.parent_op = types.SimpleNamespace(
+                type=kind, attrs=attrs, read_offsets=[None if rng.random() < 0.95 else Shape4D([0, 1, 0, 0]), None],
+                ifm=cur_t, ifm2=ifm2_t, ofm=out_t, memory_function=None,
+                ifm_shapes=[Shape4D(ifm_shape)] + ([Shape4D(ifm2_t.shape)] if ifm2_t is not None and len(ifm2_t.shape) == 4 else []),
+                ofm_shapes=[Shape4D(out_shape)])
+            so.ofm.connection = types.SimpleNamespace(consumers=[])
+            ops.append(so)
+            cur_shape, cur_t = out_shape, out_t
+        outside = object.__new__(sc.SchedulerOperation)
+        outside.index = 99
+        for i, so in enumerate(ops):
+            r = rng.random()
+            if i + 1 < len(ops) and r < 0.85:
+                so.ofm.connection.consumers = [ops[i + 1]]
+            elif i + 1 < len(ops) and r < 0.92:
+                so.ofm.connection.consumers = [ops[i + 1], ops[min(i + 2, len(ops) - 1)]]
+            elif r < 0.96:
+                so.ofm.connection.consumers = [outside]
+        builder_ops = ops if rng.random() < 0.85 else ops[rng.randint(0, 1):rng.randint(len(ops) - 1, len(ops))]
+
+        def cost_for(so, full):
+            oh = _i(so.ofm.shape.height)
+            sh = oh if full else rng.choice([1, 1, 2, 3, 4, max(1, oh // 2), oh if rng.random() < 0.3 else 2])
+            kd = so.kernel.area_height()
+            ih = min(_i(so.ifm.shape.height), (sh - 1) * so.kernel.stride.y + kd) if sh != oh else _i(so.ifm.shape.height)
+            ci = types.SimpleNamespace(stripe=so.ofm.shape.with_height(sh), stripe_input=so.ifm.shape.with_height(max(ih, 0 if rng.random() < 0.01 else 1)),
+                                       cascade=0, buffered_weight_tensors=[])
+            if not full and so.op_type in (Op.Conv2DBias, Op.DepthwiseConv2DBias) and rng.random() < 0.5:
+                for j in range(rng.choice([1, 1, 2])):
+                    ci.buffered_weight_tensors.append(Tensor([1, 1, 1, 16 * rng.randint(1, 200)], DataType.uint8, f"w{k}_{j}"))
+            return ci
+
+        ref = types.SimpleNamespace(cost_map={so: cost_for(so, False) for so in builder_ops if rng.random() < 0.985}, cascades={}, label=f"stubref{k}")
+        fb = types.SimpleNamespace(cost_map={so: cost_for(so, True) for so in ops if rng.random() < 0.995}, cascades={}, label=f"stubfb{k}")
+        spilling = rng.random() < 0.4
+        nl = {so: rng.choice([0, 0, 1024, 4096, -512, 100000]) for so in builder_ops if rng.random() < 0.5}
+        sizes = [so.ofm_size_in_bytes() for so in ops]
+        est = 8 * w * 32 * (2 if dt == DataType.int16 else 1)        # about one rolling buffer
+        limit = int(rng.choice([0, 0, est // 2, est, 2 * est, 4 * est, min(sizes), min(sizes), max(sizes), sum(sizes) // 2, 1 << 30])
+                    * rng.choice([0.5, 1, 1, 1.5]))
+        outcome = None
+        try:
+            cb.CascadeBuilder(builder_ops, spilling, nl).build_cascades(ref, fb, limit)
+        except KeyError:
+            outcome = "err:key"
+        except ZeroDivisionError:
+            outcome = "err:value"
+        except AssertionError:
+            outcome = "err:assert"
+        out = {"idx": k, "profile": "stub_builder", "seed": -1, "opts": [], "desc": f"generated chain of {nops} operations, spilling={spilling} limit={limit}"}
+        if outcome is not None and _rec == []:
+            # the call raised: the wrapper's `before` record is the request, the exception the real outcome
+            out["sched"] = {"records": [dict(_pending_build[0], real=outcome)] if _pending_build else [], "spec": [], "errors": list(_errors), "meta": {}}
+        else:
+            out["sched"] = extra(None)
+        outs.append(out)
+    return outs
+
+
+def stub_tusage(rng, n):
+    """n generated LiveRange lists through the REAL LiveRangeGraph.get_temporal_memory_usage: unmarked ranges, ranges of another
+    memory area, ranges ending at / beyond the last tick (clipped slice, the assertion)"""
+    from ethosu.vela import live_range
+    from ethosu.vela.data_type import DataType
+    from ethosu.vela.tensor import MemArea, Tensor
+
+    install()
+    outs = []
+    for k in range(n):
+        _reset()
+        g = live_range.LiveRangeGraph()
+        g.current_time = rng.choice([0, 2, 4, 10, 30])
+        for i in range(rng.randint(0, 12)):
+            t = Tensor([1, 1, 1, 16], DataType.int8, f"u{k}_{i}")
+            t.mem_area = rng.choice([MemArea.Sram] * 5 + [MemArea.Dram])
+            lr = live_range.LiveRange(t, 16)
+            if rng.random() < 0.85:
+                a = rng.randint(0, g.current_time + 1)
+                lr.start_time, lr.end_time = a, a + rng.choice([0, 1, 1, 3, g.current_time + 2 - a, g.current_time + 3 - a])
+            lr.size = rng.choice([16, 1024, 65536, (1 << 30) + 16, 2147483632])
+            g.lrs.append(lr)
+        outcome = None
+        try:
+            g.get_temporal_memory_usage(MemArea.Sram)
+        except AssertionError:
+            outcome = "err:assert"
+        out = {"idx": k, "profile": "stub_tusage", "seed": -1, "opts": [], "desc": "generated live ranges"}
+        if outcome is not None:
+            lrs = ",".join(f"{_i(lr.start_time)}:{_i(lr.end_time) + 1}:{_i(lr.size)}:{int(lr.mem_area == MemArea.Sram)}" for lr in g.lrs)
+            out["sched"] = {"records": [{"kind": "tusage", "line": f"tusage ct={_i(g.current_time)} L={lrs}", "real": outcome}], "spec": [],
+                            "errors": list(_errors), "meta": {}}
+        else:
+            out["sched"] = extra(None)
         outs.append(out)
     return outs
 
